@@ -125,3 +125,131 @@ pub fn tinfl_decompress_once(data: &[u8], flags: u32, cap: usize) -> Result<(i32
 pub fn c_int_of(v: i32) -> c_int {
     v as c_int
 }
+
+/// mz_deflateInit2 + scheduled mz_deflate calls + Finish loop + mz_deflateEnd.
+/// steps: (avail_in offered, avail_out, flush value as C int)
+pub fn mz_deflate_run(data: &[u8], level: i32, window_bits: i32, strategy: i32, steps: &[(u32, u32, i32)], finish_out: u32) -> Result<CapiRun, Violation> {
+    let mut s = mz_stream::default();
+    // SAFETY: s is a valid zeroed stream object
+    let rc = unsafe { mz_deflateInit2(&mut s, level, 8, window_bits, 9, strategy) };
+    if rc != 0 {
+        return Err(Violation::new("capi:init", format!("mz_deflateInit2({level}, 8, {window_bits}, 9, {strategy}) returned {rc}")));
+    }
+    let mut run = CapiRun { status: 0, out: Vec::new(), total_in: 0, total_out: 0, next_in_advance: 0, calls: 0, adler: 0, per_call: Vec::new() };
+    let mut ipos = 0usize;
+    let mut i = 0usize;
+    let bound = data.len() as u64 * 2 + steps.len() as u64 + (data.len() as u64 + 1024) / finish_out.max(1) as u64 + 4096;
+    loop {
+        let (take, osz, fl) = if i < steps.len() { let (a, b, f) = steps[i]; ((a as usize).min(data.len() - ipos), b.max(1) as usize, if f == 4 { 0 } else { f }) } else { (data.len() - ipos, finish_out.max(1) as usize, 4) };
+        i += 1;
+        let mut ob = vec![0u8; osz];
+        s.next_in = data[ipos..].as_ptr();
+        s.avail_in = take as c_uint;
+        s.next_out = ob.as_mut_ptr();
+        s.avail_out = osz as c_uint;
+        let before = snap(&s);
+        // SAFETY: pointers/lengths describe live buffers
+        let rc = guard(|| unsafe { mz_deflate(&mut s, fl) }).map_err(|pm| Violation::new(panic_sig("mz_deflate", &pm), format!("mz_deflate unwound: {pm}")))?;
+        let (din, dout) = check_accounting("mz_deflate", before, &s)?;
+        run.calls += 1;
+        run.per_call.push((rc, take, din, osz, dout, s.adler as u64));
+        run.out.extend_from_slice(&ob[..dout]);
+        ipos += din;
+        run.status = rc;
+        if rc == 1 {
+            break;
+        }
+        if rc < 0 && rc != -5 {
+            break;
+        }
+        if run.calls > bound {
+            return Err(Violation::new("capi:driver-no-progress", "mz_deflate loop exceeded its call bound".to_string()));
+        }
+    }
+    run.total_in = s.total_in as usize;
+    run.total_out = s.total_out as usize;
+    run.next_in_advance = ipos;
+    run.adler = s.adler as u64;
+    // SAFETY: initialised above
+    unsafe { mz_deflateEnd(&mut s) };
+    Ok(run)
+}
+
+pub fn c_adler32(start: u32, data: Option<&[u8]>) -> u32 {
+    // SAFETY: pointer/len from a live slice, or null with len 0
+    unsafe {
+        match data {
+            Some(d) => mz_adler32(start as c_ulong, d.as_ptr(), d.len()) as u32,
+            None => mz_adler32(start as c_ulong, std::ptr::null(), 0) as u32,
+        }
+    }
+}
+
+pub fn c_crc32(start: u32, data: Option<&[u8]>) -> u32 {
+    // SAFETY: as above
+    unsafe {
+        match data {
+            Some(d) => mz_crc32(start as c_ulong, d.as_ptr(), d.len()) as u32,
+            None => mz_crc32(start as c_ulong, std::ptr::null(), 0) as u32,
+        }
+    }
+}
+
+/// history on an mz_stream (no Finish), mz_deflateReset, then the workload as in mz_deflate_run
+pub fn mz_deflate_reset_run(xh: &[u8], steps_h: &[(u32, u32, i32)], xw: &[u8], steps_w: &[(u32, u32, i32)], level: i32, window_bits: i32, strategy: i32) -> Result<CapiRun, Violation> {
+    let mut s = mz_stream::default();
+    // SAFETY: valid zeroed stream
+    let rc = unsafe { mz_deflateInit2(&mut s, level, 8, window_bits, 9, strategy) };
+    if rc != 0 {
+        return Err(Violation::new("capi:init", format!("mz_deflateInit2 returned {rc}")));
+    }
+    let mut ipos = 0usize;
+    for &(a, b, f) in steps_h {
+        let take = (a as usize).min(xh.len() - ipos);
+        let mut ob = vec![0u8; b.max(1) as usize];
+        s.next_in = xh[ipos..].as_ptr();
+        s.avail_in = take as c_uint;
+        s.next_out = ob.as_mut_ptr();
+        s.avail_out = ob.len() as c_uint;
+        let before = snap(&s);
+        // SAFETY: live buffers
+        let _ = guard(|| unsafe { mz_deflate(&mut s, if f == 4 { 0 } else { f }) }).map_err(|pm| Violation::new(panic_sig("mz_deflate", &pm), format!("mz_deflate unwound: {pm}")))?;
+        let (din, _) = check_accounting("mz_deflate", before, &s)?;
+        ipos += din;
+    }
+    // SAFETY: initialised stream
+    let rc = unsafe { mz_deflateReset(&mut s) };
+    if rc != 0 {
+        return Err(Violation::new("capi:reset", format!("mz_deflateReset returned {rc}")));
+    }
+    let mut run = CapiRun { status: 0, out: Vec::new(), total_in: 0, total_out: 0, next_in_advance: 0, calls: 0, adler: 0, per_call: Vec::new() };
+    let mut ipos = 0usize;
+    let mut i = 0usize;
+    loop {
+        let (take, osz, fl) = if i < steps_w.len() { let (a, b, f) = steps_w[i]; ((a as usize).min(xw.len() - ipos), b.max(1) as usize, if f == 4 { 0 } else { f }) } else { (xw.len() - ipos, 300usize, 4) };
+        i += 1;
+        let mut ob = vec![0u8; osz];
+        s.next_in = xw[ipos..].as_ptr();
+        s.avail_in = take as c_uint;
+        s.next_out = ob.as_mut_ptr();
+        s.avail_out = osz as c_uint;
+        let before = snap(&s);
+        // SAFETY: live buffers
+        let rc = guard(|| unsafe { mz_deflate(&mut s, fl) }).map_err(|pm| Violation::new(panic_sig("mz_deflate", &pm), format!("mz_deflate unwound: {pm}")))?;
+        let (din, dout) = check_accounting("mz_deflate", before, &s)?;
+        run.calls += 1;
+        run.per_call.push((rc, take, din, osz, dout, s.adler as u64));
+        run.out.extend_from_slice(&ob[..dout]);
+        ipos += din;
+        run.status = rc;
+        if rc == 1 || (rc < 0 && rc != -5) || run.calls > xw.len() as u64 * 2 + 100_000 {
+            break;
+        }
+    }
+    run.total_in = s.total_in as usize;
+    run.total_out = s.total_out as usize;
+    run.adler = s.adler as u64;
+    // SAFETY: initialised stream
+    unsafe { mz_deflateEnd(&mut s) };
+    Ok(run)
+}
